@@ -134,6 +134,22 @@ int main(void)
         printf("%s%d", (base || l) ? "," : "", type);
       }
   }
+  /* 12 threshold probes: total 10 / 11; all-N 2000 / 2001; 2 / 3 foreign letters (B) in 100 and 101; 48 / 49 letters ACGT with
+     one of the four missing; DNA with U as well (T wins), RNA only */
+  {
+    static const int64_t P[12][6] = {   /* A, C, G, T, U, then B (index 1) / N (index 13) by probe */
+      {3,3,2,2,0,0}, {3,3,3,2,0,0}, {0,0,0,0,0,2000}, {0,0,0,0,0,2001}, {25,25,24,24,0,2}, {25,24,24,24,0,3},
+      {25,25,25,24,0,2}, {25,25,25,23,0,3}, {16,16,16,0,0,0}, {16,16,16,1,0,0}, {10,10,10,10,10,0}, {10,10,10,0,10,0} };
+    int k;
+    for (k = 0; k < 12; k++) {
+      int64_t ct[26]; int i, type;
+      for (i = 0; i < 26; i++) ct[i] = 0;
+      ct[0] = P[k][0]; ct[2] = P[k][1]; ct[6] = P[k][2]; ct[19] = P[k][3]; ct[20] = P[k][4];
+      if (k == 2 || k == 3) ct[13] = P[k][5]; else ct[1] = P[k][5];
+      esl_abc_GuessAlphabet(ct, &type);
+      printf(",%d", type);
+    }
+  }
   printf("],\"eslUNKNOWN\":%d,\"eslOK\":%d,\"eslFAIL\":%d,\"eslEINVAL\":%d,\"eslENOALPHABET\":%d}\n", eslUNKNOWN, eslOK, eslFAIL, eslEINVAL, eslENOALPHABET);
   return 0;
 }
@@ -165,7 +181,7 @@ def render_aux(d):
            "    `encodeOfDecode[t]` = `esl_abc_EncodeType(esl_abc_DecodeType(t))` (-1 -> 999), `validType[t]` = `esl_abc_ValidateType(t) == eslOK`,",
            "    t = 0..8;  `cClass_<abc>[c]` / `xClass_<abc>[x]` = bit mask of the macros esl_abc_{C,X}Is{Valid,Residue,Canonical,Gap,Degenerate,",
            "    Unknown,Nonresidue,Missing} (bits 0..7) on every (signed) char / every code 0..255; `xGet_<abc>` = XGetGap/Unknown/Nonresidue/",
-           "    Missing; `guessProbe` = answers of esl_abc_GuessAlphabet on 3 x 26 probe compositions (see the dumper). -/",
+           "    Missing; `guessProbe` = answers of esl_abc_GuessAlphabet on 3 x 26 probe compositions + 12 threshold probes (see the dumper). -/",
            "namespace EaselModel.Generated.AlphabetsAux",
            ""]
     out.append("def textRevcomp : List (Nat × Nat) := [" + ", ".join("(%d, %d)" % (a, b) for a, b in d["revtext"]) + "]")
